@@ -180,9 +180,24 @@ def lean_sources():
     return sorted(fs)
 
 
-def forbidden_scan():
+def import_closure(prop):
+    """Lean source files of this project reachable from LpProofs.<prop> and Driver.<prop> (other properties'
+    files are scanned by their own checks; a worker's transient edit elsewhere must not fail this one)."""
+    seen, todo = set(), ["LpProofs." + prop, "Driver." + prop, "LpModel." + prop]
+    while todo:
+        m = todo.pop()
+        f = os.path.join(LEAN, *m.split(".")) + ".lean"
+        if m in seen or not os.path.exists(f):
+            continue
+        seen.add(m)
+        for im in re.findall(r"^\s*import\s+((?:LpModel|LpProofs|Driver)\.[A-Za-z0-9_.]+)", strip_lean_comments(open(f).read()), re.M):
+            todo.append(im)
+    return sorted(os.path.join(LEAN, *m.split(".")) + ".lean" for m in seen)
+
+
+def forbidden_scan(prop=None):
     hits = []
-    for f in lean_sources():
+    for f in (import_closure(prop) if prop else lean_sources()):
         txt = strip_lean_comments(open(f).read())
         for m in FORBIDDEN.finditer(txt):
             line = txt.count("\n", 0, m.start()) + 1
@@ -367,7 +382,7 @@ def check(prop, tier, seed, replay=None):
         m = re.findall(r"error: ([^\n]*\n(?:[^\n]*\n){0,6})", blog)
         fails.append(dict(kind="proof", clause="lake build LpProofs.%s / drv_%s" % (prop, prop.lower()),
                           detail=("".join(m)[:3000] or blog[-3000:]), req="", impl="", model=""))
-    hits = forbidden_scan()
+    hits = forbidden_scan(prop)
     for h in hits:
         fails.append(dict(kind="proof", clause="forbidden token in Lean sources", detail=h, req="", impl="", model=""))
     lc = None
